@@ -976,3 +976,51 @@ func RunBubble(t *testing.T, cfg Config, sched *Choices, mapSeed uint64, driver 
 	res.RealNanos = int64(time.Since(t0))
 	return res
 }
+
+// Pool replaces sync.Pool in the instrumented relay code (simgen): same API, but which cached item a Get returns -- the most
+// recently put one, or none because "the garbage collector ran" or "the item sits in another P's cache" -- is drawn from the run's
+// schedule stream instead of being decided by the OS scheduler and the GC.  Outside a simulation it is a plain LIFO cache.
+type Pool struct {
+	New   func() interface{}
+	mu    sync.Mutex
+	items []interface{}
+}
+
+//go:norace
+func (p *Pool) Get() interface{} {
+	Y("pool.get")
+	var x interface{}
+	p.mu.Lock()
+	if n := len(p.items); n > 0 {
+		miss := false
+		if s := active.Load(); s != nil && s.Sched != nil {
+			miss = s.Sched.Bool(0.15)
+		}
+		if miss {
+			Probe("pool.miss_with_cached_items")
+		} else {
+			x = p.items[n-1]
+			p.items[n-1] = nil
+			p.items = p.items[:n-1]
+			Probe("pool.reuse")
+		}
+	}
+	p.mu.Unlock()
+	if x == nil && p.New != nil {
+		x = p.New()
+	}
+	return x
+}
+
+//go:norace
+func (p *Pool) Put(x interface{}) {
+	Y("pool.put")
+	if x == nil {
+		return
+	}
+	p.mu.Lock()
+	if len(p.items) < 64 {
+		p.items = append(p.items, x)
+	}
+	p.mu.Unlock()
+}
